@@ -45,7 +45,8 @@ def current : Policy :=
     ratioDen := Arc.Generated.C13.ratioDen
     ratioChecked := Arc.Generated.C13.ratioChecked
     manifestSkipped := Arc.Generated.C13.manifestSkippedBeforeMarshal
-    restoreProg := Arc.Generated.C13.restoreProgram.map decodeInstr }
+    restoreProg := Arc.Generated.C13.restoreProgram.map decodeInstr
+    dataSkipNoParquet := Arc.Generated.C13.dataSkippedWhenNoParquet }
 
 /-- `RestoreBackup` as found: every step fails the restore at once. -/
 def failNowProg : List Instr :=
@@ -58,7 +59,8 @@ def asFound : Policy :=
     backupReadAttempts := 1, backupRetryResets := false, backupWriteAttempts := 1,
     restoreReadAttempts := 1, restoreRetryResets := false, restoreWriteAttempts := 1,
     ratioNum := 1, ratioDen := 10,
-    ratioChecked := true, manifestSkipped := true, restoreProg := failNowProg }
+    ratioChecked := true, manifestSkipped := true, restoreProg := failNowProg,
+    dataSkipNoParquet := false }
 
 /-- repair A: `restoreDataFiles` returns the first per-file error. -/
 def repairedAbort : Policy := { asFound with restoreFileErr := .abort }
